@@ -6,6 +6,7 @@ by method, tied to the real code by the differential trace check) and the three-
 `Sonic.Spec.ByteBuffer`.
 -/
 import Sonic.Lemmas.ByteBufferOps
+import Sonic.Lemmas.ByteBufferHeld
 
 set_option linter.unusedVariables false
 
@@ -486,5 +487,17 @@ example : Spec.ByteBuffer.step { saved := [], readable := [1], pending := [], ca
     { ret := some .unit,
       dump := some { saved := [], readable := [1], pending := [], len := 2, cap := 512, reserved := 510 } } = none := by
   decide
+
+/-- **Held completion of a write-out** (re-export of `Sonic.Lemmas.ByteBufferHeld.held_completion_commutes`): with `Write`,
+`WriteByte`, `WriteString` and `Commit` calls made while the `n` bytes of the read area are with the writer, the completion removes
+exactly those bytes: they are still the first `n` readable bytes, what was committed meanwhile stays readable in order, the save
+area is untouched — the same state as completing first and making the calls afterwards. -/
+theorem C09_held_completion_commutes (ops : List Op) (s s1 : S) (n : Nat)
+    (hops : ∀ op ∈ ops, Sonic.Lemmas.ByteBufferHeld.HeldOk op) (hn : n ≤ s.readable.length)
+    (h : Sonic.Lemmas.ByteBufferHeld.runEff s ops = some s1) :
+    Sonic.Lemmas.ByteBufferHeld.runEff (Sonic.Lemmas.ByteBufferHeld.completed s n) ops
+        = some (Sonic.Lemmas.ByteBufferHeld.completed s1 n)
+      ∧ s1.readable.take n = s.readable.take n ∧ s1.saved = s.saved :=
+  Sonic.Lemmas.ByteBufferHeld.held_completion_commutes ops s s1 n hops hn h
 
 end Sonic.Props.C09
